@@ -249,8 +249,15 @@ def task_segD(n, m=None):
         valid = X.And(*[X.Xor(X.And(b[0], b[3]), X.And(b[1], b[2])) for b in blocks])
         recs = []
         v = X.prove([], X.Iff(flow.ret, valid), timeout_s=60)
-        recs.append(_rec(f"find_layer.segD.returns_iff_all_blocks_invertible[n={n},m={m}]", v.status, v.backend, v.time, v.info,
-                         None if v.status != "refuted" else {"row": S.concretize(row, v.model or {}).tolist()}, None))
+        cex, native = None, None
+        if v.status == "refuted":
+            rowc = [int(x) for x in S.concretize(row, v.model or {}).tolist()]
+            cex = {"row": rowc}
+            found = _native_witness_for_row(n, m, rowc, csl)
+            if found is not None:
+                cex.update(found)
+                native = True
+        recs.append(_rec(f"find_layer.segD.returns_iff_all_blocks_invertible[n={n},m={m}]", v.status, v.backend, v.time, v.info, cex, native))
         exc = X.Or(*[x.guard for x in it.raised])
         v = X.prove([], X.Not(exc))
         recs.append(_rec(f"find_layer.segD.noraise[n={n},m={m}]", v.status, v.backend, v.time, v.info))
@@ -275,6 +282,45 @@ def task_segD(n, m=None):
         cv = X.prove([], flow.ret)
         return recs, {"t": round(time.time() - t0, 3), "stmts": it.stats["stmts"], "canary": "refuted+replayed" if cv.status == "refuted" else f"NOT-REFUTED({cv.status})"}
     return task
+
+
+def _native_witness_for_row(n, m, rowc, csl):
+    """Turn a refuting coefficient row into a real input: if the row encodes a layer L of invertible blocks, take graphs whose state has few local symmetries,
+    pull m of their generators back through L^-1 and ask the REAL search for a layer.  Returns a replayable input on which the real function is wrong, or None."""
+    import itertools
+    from ..oracle import graphs as G
+    fl = _mod()
+    from htstabilizer.graph import Graph
+    blocks = []
+    for j in range(n):
+        b = tuple(sum(rowc[4 * j + k] * int(S.concretize(csl[k][e], {})) for k in range(4)) % 2 for e in range(4))
+        if b not in G.SIX:
+            return None
+        blocks.append(b)
+    inv = []
+    for a, b, c, d in blocks:               # inverse of an invertible 2x2 matrix over GF(2) (det = 1): [[d, b], [c, a]]
+        inv.append(G.SIX.index((d, b, c, a)))
+    cands = [[(i, (i + 1) % n) for i in range(n)] if n >= 3 else [(0, 1)][:n - 1], [(i, i + 1) for i in range(n - 1)], [(0, i) for i in range(1, n)]]
+    for edges in cands:
+        adj = G.adj_from_edges(n, [e for e in edges if e[0] != e[1]])
+        rows0 = [(x, z) for x, z, _ in G.graph_state_gens(n, adj)]
+        rows = G.apply_layer_unsigned(n, rows0, inv)[:m]
+        R = np.zeros((n, len(rows)), dtype=np.int8)
+        Sm = np.zeros((n, len(rows)), dtype=np.int8)
+        for j, (x, z) in enumerate(rows):
+            for q in range(n):
+                R[q, j] = (x >> q) & 1
+                Sm[q, j] = (z >> q) & 1
+        g = Graph.decompress(n, G.id_from_adj(n, adj))
+        try:
+            res = fl.find_local_clifford_layer(R, Sm, g)
+        except Exception as e:
+            res = e
+        if res is None or isinstance(res, Exception):
+            return {"n": n, "operators": [f"x={x:0{n}b} z={z:0{n}b}" for x, z in rows], "graph_id": G.id_from_adj(n, adj),
+                    "native": f"find_local_clifford_layer returned {res!r} although the layer {blocks} maps all operators into the graph state's group",
+                    "args": [{"ndarray": R.tolist(), "dtype": "int8"}, {"ndarray": Sm.tolist(), "dtype": "int8"}]}
+    return None
 
 
 def case_check_LC(n, m):
